@@ -140,7 +140,8 @@ def gen(rng, tier='quick', exact_only=False, label_kind=None, allow_affine=True,
             prims = pr
         else:
             pr, n_, zc = S.random_set(rng, nz, [k], allow_aux=False, center=c)
-            prims = [pr[0]]           # a single primitive: keep supports simple
+            # a single primitive keeps supports simple; a polytope needs its bounding piece
+            prims = [q_ for q_ in pr if q_['t'] != 'eq'][:2] if k == 'polytope' else [pr[0]]
             prims[0]['center'] = list(zc)
         supports.append(prims)
     if shared:
